@@ -145,11 +145,11 @@ def parser_tie(res, seed, n, dist):
     # attribute interpretation (derive/src/shared.rs vs coq/parse/ParseInterp.v): struct level and per field
     impl_int, model_int = {}, {}
     for l in open(dump):
-        m = re.match(r'ITEM (\S+) (F?INTERP\d*) (.*)', l.strip())
+        m = re.match(r'ITEM (\S+) (F?INTERP\d*|FUSED\d+) (.*)', l.strip())
         if m: impl_int.setdefault(m.group(1), {})[m.group(2)] = m.group(3).strip()
     if drv:
         for l in lines:
-            m = re.match(r'ITEM (\S+) (F?INTERP\d*) (.*)', l)
+            m = re.match(r'ITEM (\S+) (F?INTERP\d*|FUSED\d+) (.*)', l)
             if m: model_int.setdefault(m.group(1), {})[m.group(2)] = m.group(3).strip()
     nint = 0
     for name, d in impl_int.items():
@@ -160,7 +160,7 @@ def parser_tie(res, seed, n, dist):
             if md.get(tag) != v:
                 nd += 1
                 if nd == 1:
-                    res.add_broken('correspondence', 'Coq model of the attribute interpretation (derive/src/shared.rs) differs from the implementation',
+                    res.add_broken('correspondence', 'Coq model of the attribute interpretation (derive/src/shared.rs) / of the used-parameter helpers (derive/src/difference.rs) differs from the implementation',
                                    f"item `{srcof[name][:300]}` {tag}: model {md.get(tag)} | impl {v}")
     res.coverage['attribute_interpretations_compared'] = nint
     res.coverage['items_compared'] = nit
